@@ -27,7 +27,7 @@ PendingKeys == UNION {pend[p].ks : p \in Procs}
 Set(p, k, ttl) ==
   /\ Idle(p) /\ p # "cleaner" /\ nextVal <= 4
   /\ store' = SetTo(store, now, maxTTL, k, nextVal, ttl)
-  /\ truth' = (k :> [val |-> nextVal, exp |-> now + Cap(ttl, maxTTL)]) @@ truth
+  /\ truth' = (k :> [val |-> nextVal, exp |-> now + Cap(ttl, maxTTL) * TPS]) @@ truth
   /\ raced' = (raced \ {k}) \cup (IF k \in PendingKeys THEN {k} ELSE {})
   /\ nextVal' = nextVal + 1
   /\ UNCHANGED <<now, maxTTL, pend, lastGet>>
